@@ -28,8 +28,35 @@ func allocEscapes(a *ssa.Alloc) bool {
 				return true // the address itself is stored somewhere
 			}
 		case *ssa.UnOp, *ssa.DebugRef:
+		case *ssa.FieldAddr:
+			if addrEscapes(x, 0) {
+				return true
+			}
 		case *ssa.MakeClosure:
 			if closureEscapes(x) && !readOnlyCapture(x, a, 0) {
+				return true
+			}
+		default:
+			return true
+		}
+	}
+	return false
+}
+
+// addrEscapes: the address of a field (of a field ...) of a local struct is only used to load and store
+func addrEscapes(v ssa.Value, depth int) bool {
+	if depth > 4 || v.Referrers() == nil {
+		return true
+	}
+	for _, r := range *v.Referrers() {
+		switch x := r.(type) {
+		case *ssa.Store:
+			if x.Val == v {
+				return true
+			}
+		case *ssa.UnOp, *ssa.DebugRef:
+		case *ssa.FieldAddr:
+			if addrEscapes(x, depth+1) {
 				return true
 			}
 		default:
